@@ -11,6 +11,8 @@ claimed = {
          "ideal signature scheme and collision-free hashes instead of real crypto; Database double"),
  "C02": ("5/C02", "On every certificate of the C01 harness the structure emitted through the DER model is compared with the RFC 5280 skeleton built by independent helpers; algorithm identifiers and the serial-number range (all values below the real snMax, all positive int64) are decided by the solver.",
          "encoding/asn1 leaf encoders are executed, not proved canonical; independent-parser acceptance and re-encoding stability are outside the claim"),
+ "C03": ("5/C03", "Subject strings with symbolic value bytes run through the real ParseRDNSequence (incl. the interpreted regexp), optional profile validation and BuildCertBody; RDN count/order/type/value, serial and unique ids are asserted; freshness of the random serial is an existential solver query.",
+         "skeleton-structured subjects (separator characters fixed by construction), values of 2-3 bytes"),
  "C05": ("5/C05", "Exhaustive symbolic run over the 15 x 9 keyAlgorithm x signatureAlgorithm configurations against RFC reference tables.",
          "key generation stubs record the curve / size they were asked for"),
  "C06": ("5/C06", "The real pipeline behind the YAML front end (initCertificate, parseExtensions, commonExtensionHandler via emulated reflection, readRawString with the real base64 code, BuildCertBody, Sign) is executed with raw payload bytes and critical flags symbolic; order, OID, flag and value of every emitted extension are asserted.",
@@ -19,6 +21,8 @@ claimed = {
          "content strings of 2 bytes, short lists; hashed key identifiers are part of the C01 harness; the pathLen=0 defect is a recorded known finding"),
  "C16": ("5/C16", "The admission encoder (raw TLV assembly plus emulated reflection in partialMarshallStruct) is executed level by level for every subset of optional members and every GeneralName kind, and through the v1 configuration layer, against a reference AdmissionSyntax encoder written from Common PKI v2.0.",
          "compositional coverage of the tree, 2-byte ASCII strings"),
+ "C19": ("5/C19", "Self-composition: the same configuration is generated with and without every subset of the six manipulations (symbolic values) and all fields are compared; the signature is verified over the manipulated TBS bytes.",
+         "self-issued P-256 certificate with a given key; ideal signature scheme"),
  "C08": ("5/C08", "Merge is executed symbolically against the merge rule of the statement for every profile/certificate list inside the bound; inputs-unchanged frame check. The failure clause for content-less extensions is decided by the C06/C07 builder harnesses once present.",
          "extension doubles instead of the real v1 types; JSON equality via the json.Marshal model (cross-checked against the host encoder on concrete calls)"),
  "C09": ("5/C09", "Validate is executed symbolically against the three-valued oracle transcribed from the statement; attribute types, optional flags and allowOther are solver variables.",
